@@ -24,6 +24,8 @@ const dbNet = wire.SimNet
 
 var errInjected = errors.New("verif: injected I/O fault")
 
+var corruptOracle = os.Getenv("VERIF_FFLDB_CORRUPT") != ""
+
 // divergence is one difference between the real database and the
 // specification's property layer.
 type divergence struct {
@@ -69,6 +71,7 @@ type world struct {
 	reported map[string]bool // known-defect blocks already reported on this path
 	evals    int64
 	drift    string
+	ioDrift  string // the commit's I/O calls differ from the specification's steps (noted, not a reason to stop)
 }
 
 func counted(op string) bool {
@@ -644,6 +647,15 @@ func readSpecView(v tla.Value) specView {
 			d.keys = append(d.keys, [2]string{kvp.At(1).Str(), kvp.At(2).Str()})
 		}
 		d.subs = vs[i].F("subs").Strs()
+		if corruptOracle && len(d.keys) > 0 {
+			// self-test of the binding (VERIF_FFLDB_CORRUPT=1): falsify one
+			// expected value; the run must report violations
+			if d.keys[0][1] == "v1" {
+				d.keys[0][1] = ""
+			} else {
+				d.keys[0][1] = "v1"
+			}
+		}
 		s.kv[pathName(ks[i])] = d
 	}
 	for _, b := range v.F("blk").Set() {
